@@ -9,6 +9,7 @@ import YaegiVerif.Proofs.C03Decl
 import YaegiVerif.Proofs.C03Block
 import YaegiVerif.Proofs.C03Const
 import YaegiVerif.Proofs.C03Exact
+import YaegiVerif.Proofs.C03Walk
 import YaegiVerif.Model.ConstClass
 /-
   C03 — property theorems: constant expressions follow Go's exact constant semantics.
@@ -25,7 +26,7 @@ theorem reprfacts_tie : Generated.C03.reprFacts = Expected.C03.reprFacts := by d
 
 /-- tie: the `constOp` map of cfg.go (comparisons included, b3f92e0), for each folding function the go/constant entry
     point and token it uses, whether it wraps its operands in `constant.ToInt`, the Go operator of each typed arm, the
-    integer-quotient switch of `quoConst`, the `constToken` table of typecheck.go, and the twenty `CheckFacts` about
+    integer-quotient switch of `quoConst`, the `constToken` table of typecheck.go, and the twenty-six `CheckFacts` about
     the checks that the repairs of the third round put around the folds (constExpr / constOverflow framing of both
     fold sites, the 512-bit and 1074 limits, the shift clamp, the exact integer quotient, no early return for
     quotients, the form of zeroConst, untyped-stays-untyped, floating-point shift counts, checked conversions of
@@ -119,76 +120,80 @@ example : reprY Expected.C03.reprFactsBefore .int8 200 = true ∧ reprY Expected
 /-! ### evaluation of constant expressions: one walk of the interpreter (`var c = e`, operands, first walk) -/
 
 /-- the full statement for one walk over the integer fragment: the interpreter's folding gives the value and type of
-    the specification, and rejects exactly what the specification rejects. After the repairs of the third round it
-    fails only for integer literals of more than 512 bits (`huge_literal_witness`, F03-21). -/
+    the specification, and rejects exactly what the specification rejects -/
 def evalY_full_statement : Prop :=
   ∀ (env : Env) (e : CExpr), env.pass2 = false → intShape e = true →
     Class.compare (evalY Expected.C03.facts env none e) (Spec.evalGo env.iota e) = .same
 
-/-- **Integer constant expressions, both directions** — for every expression tree over integer and rune literals (of
-    at most 512 bits, `litBound`), `iota`, unary `+ - ^`, the operators `+ - * / % & | ^ &^ << >>`, conversions to
-    the eleven integer types and parentheses, every value of `iota`, in every first walk (`env.pass2 = false`: inside
-    or outside a constant declaration, whether or not the package scope already has variables): one walk of the
-    interpreter has **exactly the outcome of the Go specification** — the same value with the same type (an untyped
-    kind or a basic type; held as a go/constant value while untyped, as a reflect value of the kind once typed), or
-    a compile error on both sides: mismatched operand types, an operand or a result that is not representable in the
-    operand type (typed arithmetic is recomputed exactly by `check.constExpr` since 31bf1d3: `int8(100) + int8(100)`,
-    `-uint8(1)`, `int64(1) << 63` are rejected), a constant zero divisor (typed ones included), a conversion of a typed
-    or untyped constant that does not fit (e6c1f4a), an untyped result of more than 512 bits or a shift count above
-    1074 (eeab028). The quotient goes through the operand conversions like every other operator (6f2f5cf), so
-    `'a' / 2` is a rune constant: the former side condition `noRuneQuo` is gone, and so is the restriction to
-    expressions that Go accepts. Proved by structural induction (Proofs/C03Main.lean `evalY_int_rel`, node lemmas
-    `binNode_rel`, `shiftNode_rel`, `unNode_rel`, `convNode_rel`). The only side condition left is `litBound`. -/
-theorem evalY_eq_spec_partial (env : Env) (hp2 : env.pass2 = false) (e : CExpr) (hshape : intShape e = true)
-    (hl : litBound e = true) :
+/-- **Integer constant expressions, both directions, no side condition** — for every expression tree over integer
+    literals of any magnitude, rune literals, `iota`, unary `+ - ^`, the operators `+ - * / % & | ^ &^ << >>`,
+    conversions to the eleven integer types and parentheses, every value of `iota`, in every first walk
+    (`env.pass2 = false`: inside or outside a constant declaration, whether or not the package scope already has
+    variables): one walk of the interpreter has **exactly the outcome of the Go specification** — the same value with
+    the same type (an untyped kind or a basic type; held as a go/constant value while untyped, as a reflect value of
+    the kind once typed), or a compile error on both sides: mismatched operand types, an operand or a result that is
+    not representable in the operand type (typed arithmetic is recomputed exactly by `check.constExpr`), a constant
+    zero divisor (typed ones included), a conversion of a typed or untyped constant that does not fit, an untyped
+    result of more than 512 bits, a shift count above 1074, and — since 638fc07 — an integer literal of more than 512
+    bits: the last side condition of the previous version (`litBound`, F03-21) is gone, `evalY_full_statement` holds.
+    Proved by structural induction (Proofs/C03Main.lean `evalY_int_rel`, node lemmas `binNode_rel`, `shiftNode_rel`,
+    `unNode_rel`, `convNode_rel`). -/
+theorem evalY_eq_spec (env : Env) (hp2 : env.pass2 = false) (e : CExpr) (hshape : intShape e = true) :
     Class.compare (evalY Expected.C03.facts env none e) (Spec.evalGo env.iota e) = .same :=
-  compare_of_rel (evalY_int_rel env hp2 e hshape hl)
+  compare_of_rel (evalY_int_rel env hp2 e hshape)
+
+/-- the full statement holds -/
+theorem evalY_full_statement_holds : evalY_full_statement :=
+  fun env e hp2 hs => evalY_eq_spec env hp2 e hs
 
 /-- the accepting half in the form the declaration theorems use: whenever the specification accepts the expression
     the walk folds it to the same value with the same type -/
 theorem evalY_eq_spec_accepts (env : Env) (hp2 : env.pass2 = false) (e : CExpr) (hshape : intShape e = true)
-    (hl : litBound e = true) (gv : Spec.GV) (hgo : Spec.evalGo env.iota e = .ok gv) :
+    (gv : Spec.GV) (hgo : Spec.evalGo env.iota e = .ok gv) :
     ∃ n, evalY Expected.C03.facts env none e = .ok n ∧ n.ty = gv.ty ∧ Class.absRV n.rv = gv.v := by
-  obtain ⟨n, hn, hinv⟩ := evalY_int_correct env hp2 e hshape hl gv hgo
+  obtain ⟨n, hn, hinv⟩ := evalY_int_correct env hp2 e hshape gv hgo
   refine ⟨n, hn, hinv.1, ?_⟩
   rcases hinv.shape with ⟨_, _, _, rfl, _, hrv⟩ | ⟨_, _, rfl, _, hrv, _⟩ <;> simp [Class.absRV, hrv]
 
 /-- the rejecting half: what the specification rejects is a compile error of the walk — not a Go panic, not a
     wrapped value -/
 theorem evalY_eq_spec_rejects (env : Env) (hp2 : env.pass2 = false) (e : CExpr) (hshape : intShape e = true)
-    (hl : litBound e = true) (hgo : Spec.evalGo env.iota e = .reject) :
+    (hgo : Spec.evalGo env.iota e = .reject) :
     evalY Expected.C03.facts env none e = .reject :=
-  evalY_int_reject env hp2 e hshape hl hgo
+  evalY_int_reject env hp2 e hshape hgo
 
 /-- the same about the facts regenerated from the current source -/
-theorem evalY_eq_spec_generated (env : Env) (hp2 : env.pass2 = false) (e : CExpr) (hshape : intShape e = true)
-    (hl : litBound e = true) :
+theorem evalY_eq_spec_generated (env : Env) (hp2 : env.pass2 = false) (e : CExpr) (hshape : intShape e = true) :
     Class.compare (evalY { repr := Generated.C03.reprFacts, eval := Generated.C03.evalFacts } env none e)
       (Spec.evalGo env.iota e) = .same := by
-  rw [reprfacts_tie, evalfacts_tie]; exact evalY_eq_spec_partial env hp2 e hshape hl
+  rw [reprfacts_tie, evalfacts_tie]; exact evalY_eq_spec env hp2 e hshape
 
-/-- **what `litBound` excludes is a real difference** (F03-21): an integer literal of more than 512 bits is a
-    constant overflow for the toolchain; the interpreter has no limit on literals, only on results
-    (`(1<<600 + 12345) >> 599` is 2) -/
-theorem huge_literal_witness :
-    (evalY Expected.C03.facts { iota := 0 } none (.bin .shr (.int (2 ^ 600 + 12345)) (.int 599))).bind (fun n => .ok n.rv) =
-      .ok (.c (.int 2)) ∧
+/-- **every walk computes the same node** on the integer fragment: neither the (numeric) type pushed down by a
+    declaration or left on a node by an earlier walk, nor the walk itself (first or later, with literal operands that
+    kept their first conversion, inside or outside a constant declaration, empty frame or not) changes what the
+    interpreter computes — an operation on untyped constants stays untyped (3f5ccd5, 4bed514), an operation on a typed
+    operand takes the type of that operand (2988c87). This is the statement behind the repairs of F03-2, F03-14 and
+    F03-18. -/
+theorem walk_independent (e : CExpr) (hshape : intShape e = true) (env : Env) (forced : Option Ty)
+    (hf : ∀ f, forced = some f → f.isNumber = true) :
+    evalY Expected.C03.facts env forced e = evalY Expected.C03.facts { iota := env.iota } none e :=
+  evalY_int_indep e hshape env forced hf
+
+/-- the literal limit (F03-21, fixed by 638fc07): `(2^600 + 12345) >> 599` is rejected by both sides; with the facts
+    before the fifth round the interpreter accepted the literal (2) -/
+example :
+    evalY Expected.C03.facts { iota := 0 } none (.bin .shr (.int (2 ^ 600 + 12345)) (.int 599)) = .reject ∧
     Spec.evalGo 0 (.bin .shr (.int (2 ^ 600 + 12345)) (.int 599)) = .reject ∧
-    litBound (.bin .shr (.int (2 ^ 600 + 12345)) (.int 599)) = false := by
+    (evalY { Expected.C03.facts with eval := Expected.C03.evalFactsBeforeR5 } { iota := 0 } none
+        (.bin .shr (.int (2 ^ 600 + 12345)) (.int 599))).bind (fun n => .ok n.rv) = .ok (.c (.int 2)) := by
   refine ⟨?_, ?_, ?_⟩ <;> (set_option exponentiation.threshold 1024 in decide +kernel)
-
-theorem evalY_full_statement_false : ¬ evalY_full_statement := by
-  intro h
-  have h1 := h { iota := 0 } (.bin .shr (.int (2 ^ 600 + 12345)) (.int 599)) rfl rfl
-  revert h1
-  set_option exponentiation.threshold 1024 in decide +kernel
 
 /-- non-vacuity: a depth-5 tree with a 2^200 literal, typed and untyped operands, a shift, a conversion and `iota`
     is in the domain; it evaluates to `-35` of type int8 -/
 def exTree : CExpr :=
   .bin .sub (.conv (.i .int8) (.bin .shr (.bin .shl (.int 1) (.int 200)) (.int 198)))
     (.bin .mul (.par (.bin .add (.iota) (.rune 10))) (.un .neg (.un .bitNot (.int 2))))
-example : intShape exTree = true ∧ litBound exTree = true ∧
+example : intShape exTree = true ∧
     Spec.evalGo 3 exTree = .ok ⟨.int (-35), .t (.i .int8)⟩ ∧
     (evalY Expected.C03.facts { iota := 3 } none exTree).bind (fun n => .ok (n.rv, n.ty)) =
       .ok (.r (.i .int8) (.int (-35)), .t (.i .int8)) := by decide
@@ -309,9 +314,9 @@ example :
     declaration *equals* the specification — the value with Go's default type (`int32` for a rune constant:
     `var c0 = 'a'`, F03-5 fixed by b080dc4; the former restriction `noRune` is gone), a compile error when the constant
     does not fit its default type or when the specification rejects `e`. -/
-theorem var_decl_exact (e : CExpr) (hshape : intShape e = true) (hl : litBound e = true) :
+theorem var_decl_exact (e : CExpr) (hshape : intShape e = true) :
     varDeclY Expected.C03.facts none e = Spec.declGo 0 none e :=
-  Proofs.C03.var_decl_exact e hshape hl
+  Proofs.C03.var_decl_exact e hshape
 
 /-- non-vacuity: `var c0 = 'a'` is 97 of type int32 on both sides (int with the code before b080dc4) -/
 example :
@@ -344,38 +349,30 @@ theorem iota_block_generated (F : Facts) (specs : List Spec)
     ∃ vs, blockY F Generated.C03.declFacts specs = .ok vs ∧ Spec.blockGo specs = vs.map Res.ok := by
   rw [declfacts_tie]; exact iota_block_correct F specs h
 
-/-- **`const c = e` at package level, untyped integer expressions** (integer and rune literals, iota, unary and
-    binary integer operators including shifts and quotients of rune constants, parentheses; no conversions): the three
-    walks of the declaration (gta on the block, gta on the spec, cfg — the later ones with the type of the first pushed
-    down every operator, which changes nothing since an operation on untyped constants stays untyped, 3f5ccd5:
-    `evalY_ufrag_indep`) and the use of the constant yield exactly the value and default type of the specification,
-    for every `iota`, whether or not `sc.types` is still empty. -/
-theorem const_decl_correct (i : Nat) (e : CExpr) (hs : ufrag e = true) (hl : litBound e = true)
+/-- **`const c = e` at package level, any expression of the integer fragment** (typed and untyped operands,
+    conversions included): the three walks of the declaration (gta on the block, gta on the spec, cfg — the later
+    ones with the type of the first pushed down every operator, literal operands keeping the conversion of the first
+    walk, conversion operands the type the conversion left on them: none of it changes the node, `walk_independent`)
+    and the use of the constant yield exactly the value and (default) type of the specification, for every `iota`,
+    whether or not `sc.types` is still empty. (Before the fifth round: untyped expressions without conversions only.) -/
+theorem const_decl_correct (i : Nat) (e : CExpr) (hs : intShape e = true)
     (v : CV × BT) (hgo : Spec.declGo i none e = .ok v) : SpecOk Expected.C03.facts i none e := by
   intro first
-  obtain ⟨n, m, h1, h2, h3⟩ := const_decl_stages i e hs hl v hgo first
+  obtain ⟨n, m, h1, h2, h3⟩ := const_decl_stages i e hs v hgo first
   exact ⟨n, m, v, h1, h2, h3, hgo⟩
 
-/-- **every walk computes the same node**: on an untyped integer expression neither the (numeric) type pushed down by
-    the declaration nor the walk (first, second, inside or outside a constant declaration, empty frame or not) changes
-    what the interpreter computes — the statement behind the repair of F03-2 -/
-theorem untyped_expr_walk_independent (e : CExpr) (hs : ufrag e = true) (env : Env) (forced : Option Ty)
-    (hf : ∀ f, forced = some f → f.isNumber = true) :
-    evalY Expected.C03.facts env forced e = evalY Expected.C03.facts { iota := env.iota } none e :=
-  (evalY_ufrag_indep e hs env forced hf).1
-
-/-- **Blocks of untyped integer constants, end to end**: for every block length and every pattern of implicit
-    repetition, if each resolved spec is an untyped-integer expression without declared type that Go accepts with
-    `iota` = its index, the interpreter model gives the block exactly the values and default types of the
+/-- **Blocks of integer constants without declared types, end to end**: for every block length and every pattern of
+    implicit repetition, if each resolved spec is an expression of the integer fragment without declared type that Go
+    accepts with `iota` = its index, the interpreter model gives the block exactly the values and types of the
     specification. -/
 theorem block_untyped_correct (specs : List Spec)
     (h : ∀ j r, (Spec.resolveGo none specs)[j]? = some r →
-      ∃ e v, r = some (none, e) ∧ ufrag e = true ∧ litBound e = true ∧ Spec.declGo j none e = .ok v) :
+      ∃ e v, r = some (none, e) ∧ intShape e = true ∧ Spec.declGo j none e = .ok v) :
     ∃ vs, blockY Expected.C03.facts Expected.C03.declFacts specs = .ok vs ∧ Spec.blockGo specs = vs.map Res.ok := by
   apply iota_block_correct
   intro j r hr
-  obtain ⟨e, v, hre, hs, hl, hgo⟩ := h j r hr
-  exact ⟨none, e, hre, const_decl_correct j e hs hl v hgo⟩
+  obtain ⟨e, v, hre, hs, hgo⟩ := h j r hr
+  exact ⟨none, e, hre, const_decl_correct j e hs v hgo⟩
 
 /-- non-vacuity of the hypothesis of `block_untyped_correct`: `const ( a = 1 << iota; b; c )` -/
 example : ∃ vs, blockY Expected.C03.facts Expected.C03.declFacts
@@ -386,13 +383,13 @@ example : ∃ vs, blockY Expected.C03.facts Expected.C03.declFacts
   match j, hr with
   | 0, hr =>
     simp [Spec.resolveGo] at hr; subst hr
-    exact ⟨_, (.int 1, .i .int), rfl, by decide, by decide, by decide⟩
+    exact ⟨_, (.int 1, .i .int), rfl, by decide, by decide⟩
   | 1, hr =>
     simp [Spec.resolveGo] at hr; subst hr
-    exact ⟨_, (.int 2, .i .int), rfl, by decide, by decide, by decide⟩
+    exact ⟨_, (.int 2, .i .int), rfl, by decide, by decide⟩
   | 2, hr =>
     simp [Spec.resolveGo] at hr; subst hr
-    exact ⟨_, (.int 4, .i .int), rfl, by decide, by decide, by decide⟩
+    exact ⟨_, (.int 4, .i .int), rfl, by decide, by decide⟩
   | n + 3, hr => simp [Spec.resolveGo] at hr
 
 /-- non-vacuity: `const ( a = iota; b; c uint8 = 1 << iota; d; e = iota * 10 )` -/
@@ -408,12 +405,12 @@ example : blockY Expected.C03.facts Expected.C03.declFacts exBlock =
 /-! ### conversions and declarations with a declared type, both directions -/
 
 /-- **`T(e)`, both directions**, for every expression `e` of the integer fragment — typed or untyped — and every
-    integer type `T`: the instance of `evalY_eq_spec_partial` for a conversion at the top. `int8(200)`, `uint8(-1)`,
+    integer type `T`: the instance of `evalY_eq_spec` for a conversion at the top. `int8(200)`, `uint8(-1)`,
     `int64(1 << 63)` are rejected (untyped operand, `representableConst`), and so are `int8(int16(300))`,
     `uint8(int8(-1))` (typed operand: a constant conversion since e6c1f4a). -/
-theorem conv_exact (i : Nat) (e : CExpr) (hshape : intShape e = true) (hl : litBound e = true) (k : IKind) :
+theorem conv_exact (i : Nat) (e : CExpr) (hshape : intShape e = true) (k : IKind) :
     Class.compare (evalY Expected.C03.facts { iota := i } none (.conv (.i k) e)) (Spec.evalGo i (.conv (.i k) e)) = .same :=
-  evalY_eq_spec_partial { iota := i } rfl (.conv (.i k) e) (by simpa [intShape] using hshape) (by simpa [litBound] using hl)
+  evalY_eq_spec { iota := i } rfl (.conv (.i k) e) (by simpa [intShape] using hshape)
 
 /-- non-vacuity: `int8(1 << 200 >> 193)` (128), `int8(-(1 << 7) - 1)` and `uint8(int8(-1))` are in the domain and
     rejected by both sides, `int8(-(1 << 7))` is accepted by both with value −128 -/
@@ -428,54 +425,58 @@ example :
     (evalY Expected.C03.facts { iota := 0 } none (.conv (.i .int8) (.un .neg (.bin .shl (.int 1) (.int 7))))).bind (fun n => .ok n.rv) =
       .ok (.r (.i .int8) (.int (-128))) := by decide
 
-/-- **`var c T = e` at package level, both directions**, `T` any integer type, `e` an untyped operator expression
-    (`ufrag`: `var c0 uint8 = 100 - 101`, `var v int = (7/2)*2` — the operator node stays untyped under the declared
-    type and the assignment performs the conversion and its check, F03-2 fixed by 3f5ccd5) or an initialiser on which
-    the pushed-down type has no effect for syntactic reasons (`declShape`: literals, unary operators, parentheses,
-    conversions of any integer-fragment expression): the model of the declaration *equals* the specification —
-    Go's value when the constant is representable in `T` (or already has type `T`), a compile error otherwise, and
-    when the specification rejects `e`. Left out: an operator applied to typed operands at the top of the
-    initialiser (F03-18, `typed_decl_mismatch_witness`). -/
-theorem typed_var_decl_exact (k : IKind) (e : CExpr) (hs : declShape e = true ∨ ufrag e = true) (hl : litBound e = true) :
+/-- **`var c T = e` at package level, both directions**, `T` any integer type, `e` **any** expression of the integer
+    fragment: the model of the declaration *equals* the specification — Go's value when the constant is representable
+    in `T` (or already has type `T`), a compile error otherwise, and when the specification rejects `e`. Untyped operator
+    expressions stay untyped under the declared type and are checked by the assignment (`var c0 uint8 = 100 - 101`,
+    F03-2); an operator on typed operands takes the type of its operand, so a typed constant of another type is a
+    mismatch as in Go (`var c0 int8 = int16(1) + 2`, F03-18 fixed by 2988c87 — the former restriction to initialisers
+    without such an operator is gone). -/
+theorem typed_var_decl_exact (k : IKind) (e : CExpr) (hshape : intShape e = true) :
     varDeclY Expected.C03.facts (some (.i k)) e = Spec.declGo 0 (some (.i k)) e :=
-  Proofs.C03.typed_var_decl_exact k e hs hl
+  Proofs.C03.typed_var_decl_exact k e hshape
 
 /-- non-vacuity: the former replays of F03 (`var c0 int8 = 200`) and F03-2 (`var c0 uint8 = 100 - 101`) are rejected
-    by both sides; with the facts before the repairs the second one was 255 -/
+    by both sides (with the facts before the third round the second one was 255), and so is the former replay of F03-18
+    `var c0 int8 = int16(1) + 2` (3 with the facts before the fifth round) -/
 example :
     varDeclY Expected.C03.facts (some (.i .int8)) (.int 200) = .reject ∧ Spec.declGo 0 (some (.i .int8)) (.int 200) = .reject ∧
     varDeclY Expected.C03.facts (some (.i .uint8)) (.bin .sub (.int 100) (.int 101)) = .reject ∧
     Spec.declGo 0 (some (.i .uint8)) (.bin .sub (.int 100) (.int 101)) = .reject ∧
-    ufrag (.bin .sub (.int 100) (.int 101)) = true ∧
+    varDeclY Expected.C03.facts (some (.i .int8)) (.bin .add (.conv (.i .int16) (.int 1)) (.int 2)) = .reject ∧
+    Spec.declGo 0 (some (.i .int8)) (.bin .add (.conv (.i .int16) (.int 1)) (.int 2)) = .reject ∧
+    varDeclY { Expected.C03.facts with eval := Expected.C03.evalFactsBeforeR5 } (some (.i .int8))
+      (.bin .add (.conv (.i .int16) (.int 1)) (.int 2)) = .ok (.int 3, .i .int8) ∧
     varDeclY { Expected.C03.facts with eval := Expected.C03.evalFactsBeforeR3 } (some (.i .uint8)) (.bin .sub (.int 100) (.int 101)) =
       .ok (.int 255, .i .uint8) ∧
     varDeclY Expected.C03.facts (some (.i .int8)) (.un .neg (.par (.int 128))) = .ok (.int (-128), .i .int8) ∧
-    varDeclY Expected.C03.facts (some (.i .int16)) (.conv (.i .int16) (.bin .mul (.int 200) (.int 100))) = .ok (.int 20000, .i .int16) ∧
-    declShape (.conv (.i .int16) (.bin .mul (.int 200) (.int 100))) = true := by decide
+    varDeclY Expected.C03.facts (some (.i .int16)) (.conv (.i .int16) (.bin .mul (.int 200) (.int 100))) = .ok (.int 20000, .i .int16) := by
+  decide
 
-/-- **`const c T = e`, both directions**, `T` any integer type, `e` an untyped operator expression, for every `iota`
-    and wherever the spec stands in a block: when Go accepts the declaration all three walks and the use yield Go's
-    value (`SpecOk`, so the spec can take part in `iota_block_correct`); when Go rejects it (`const y int16 = 40000`,
-    `const c int8 = 100 + 900`) the first walk of the interpreter rejects it. -/
-theorem typed_const_decl_exact (i : Nat) (k : IKind) (e : CExpr) (hs : ufrag e = true) (hl : litBound e = true) :
+/-- **`const c T = e`, both directions**, `T` any integer type, `e` any expression of the integer fragment, for every
+    `iota` and wherever the spec stands in a block: when Go accepts the declaration all three walks and the use yield
+    Go's value (`SpecOk`, so the spec can take part in `iota_block_correct`); when Go rejects it
+    (`const y int16 = 40000`, `const c int8 = 100 + 900`, `const c int8 = int16(1) + 2`) the first walk of the
+    interpreter rejects it. -/
+theorem typed_const_decl_exact (i : Nat) (k : IKind) (e : CExpr) (hshape : intShape e = true) :
     (∀ v, Spec.declGo i (some (.i k)) e = .ok v → SpecOk Expected.C03.facts i (some (.i k)) e) ∧
     (Spec.declGo i (some (.i k)) e = .reject → ∀ first, constGtaY Expected.C03.facts i first (some (.i k)) e = .reject) :=
-  Proofs.C03.typed_const_decl_exact i k e hs hl
+  Proofs.C03.typed_const_decl_exact i k e hshape
 
-/-- **Blocks of integer constants with or without declared types, end to end**: every resolved spec is an
-    untyped-integer expression, without declared type or with a declared integer type
+/-- **Blocks of integer constants with or without declared types, end to end**: every resolved spec is an expression
+    of the integer fragment, without declared type or with a declared integer type
     (`const ( a int8 = 1 << iota; b; c )`), accepted by Go with `iota` = its index: the interpreter model gives the
     block exactly the values and types of the specification. -/
 theorem block_int_correct (specs : List Spec)
     (h : ∀ j r, (Spec.resolveGo none specs)[j]? = some r →
-      (∃ e v, r = some (none, e) ∧ ufrag e = true ∧ litBound e = true ∧ Spec.declGo j none e = .ok v) ∨
-      (∃ k e v, r = some (some (.i k), e) ∧ ufrag e = true ∧ litBound e = true ∧ Spec.declGo j (some (.i k)) e = .ok v)) :
+      (∃ e v, r = some (none, e) ∧ intShape e = true ∧ Spec.declGo j none e = .ok v) ∨
+      (∃ k e v, r = some (some (.i k), e) ∧ intShape e = true ∧ Spec.declGo j (some (.i k)) e = .ok v)) :
     ∃ vs, blockY Expected.C03.facts Expected.C03.declFacts specs = .ok vs ∧ Spec.blockGo specs = vs.map Res.ok := by
   apply iota_block_correct
   intro j r hr
-  rcases h j r hr with ⟨e, v, hre, hs, hl, hgo⟩ | ⟨k, e, v, hre, hs, hl, hgo⟩
-  · exact ⟨none, e, hre, const_decl_correct j e hs hl v hgo⟩
-  · exact ⟨some (.i k), e, hre, (typed_const_decl_exact j k e hs hl).1 v hgo⟩
+  rcases h j r hr with ⟨e, v, hre, hs, hgo⟩ | ⟨k, e, v, hre, hs, hgo⟩
+  · exact ⟨none, e, hre, const_decl_correct j e hs v hgo⟩
+  · exact ⟨some (.i k), e, hre, (typed_const_decl_exact j k e hs).1 v hgo⟩
 
 /-- non-vacuity: `const ( a int8 = 1 << iota; b; c )` is 1, 2, 4 of type int8 on both sides, and the former inputs
     `const y int16 = 40000`, `const c int8 = 100 + 900` are rejected -/
@@ -489,36 +490,37 @@ example :
     constDeclY Expected.C03.facts (some (.i .int8)) (.bin .add (.int 100) (.int 900)) = .rejectOrCrash ∧
     Spec.declGo 0 (some (.i .int8)) (.bin .add (.int 100) (.int 900)) = .reject := by decide +kernel
 
-/-! ### witnesses: the differences that are left (each is a listed finding) -/
+/-! ### the findings repaired in the fifth round: model = specification, and what the code did before -/
 
-/-- F03-18: a declared type is copied onto an operator at the top of the initialiser before its operands are looked
-    at; when the operands are typed constants of another type the mismatch goes unnoticed:
-    `var c0 int8 = int16(1) + 2` is 3 (Go: cannot use int16 as int8) -/
-theorem typed_decl_mismatch_witness :
-    varDeclY Expected.C03.facts (some (.i .int8)) (.bin .add (.conv (.i .int16) (.int 1)) (.int 2)) = .ok (.int 3, .i .int8) ∧
-    Spec.declGo 0 (some (.i .int8)) (.bin .add (.conv (.i .int16) (.int 1)) (.int 2)) = .reject ∧
-    Class.declMismatch 0 (some (.i .int8)) (.bin .add (.conv (.i .int16) (.int 1)) (.int 2)) = true := by decide
-
-/-- F03-14: a package-level constant declaration is walked three times; in the later walks the operand of a
-    conversion still carries the type the conversion left on it, and `check.binaryExpr` compares it with the types of
-    its operands: `const c0 = string('a' + 1)` is rejected ("cannot use type untyped rune as type string"), Go: "b" -/
-theorem const_later_walk_witness :
-    constDeclY Expected.C03.facts none (.conv .str (.bin .add (.rune 97) (.int 1))) = .reject ∧
+/-- F03-14 (4bed514), F03-19 (1122c63), F03-20 (a35d2a5), F03-22 (a1f1717): `const c0 = string('a' + 1)` is "b" in all
+    three walks (the later walks rejected it), `true << 1` is a compile error (a Go panic before),
+    `var c0 = uint64(-1 << len(string("ab")))` is rejected as a constant overflow (`len` was a run-time call: outside
+    the model), `string(4294967296)` is "\uFFFD" ("\x00" before) -/
+theorem round5_regressions :
+    let FB : Facts := { Expected.C03.facts with eval := Expected.C03.evalFactsBeforeR5 }
+    constDeclY Expected.C03.facts none (.conv .str (.bin .add (.rune 97) (.int 1))) = .ok [(.str [98], .str)] ∧
     Spec.declGo 0 none (.conv .str (.bin .add (.rune 97) (.int 1))) = .ok (.str [98], .str) ∧
-    varDeclY Expected.C03.facts none (.conv .str (.bin .add (.rune 97) (.int 1))) = .ok (.str [98], .str) := by decide
+    constDeclY FB none (.conv .str (.bin .add (.rune 97) (.int 1))) = .reject ∧
+    evalY Expected.C03.facts { iota := 0 } none (.bin .shl (.bool true) (.int 1)) = .reject ∧
+    Spec.evalGo 0 (.bin .shl (.bool true) (.int 1)) = .reject ∧
+    evalY FB { iota := 0 } none (.bin .shl (.bool true) (.int 1)) = .crash ∧
+    varDeclY Expected.C03.facts none (.conv (.i .uint64) (.bin .shl (.un .neg (.int 1)) (.len (.conv .str (.str [97, 98]))))) = .reject ∧
+    Spec.declGo 0 none (.conv (.i .uint64) (.bin .shl (.un .neg (.int 1)) (.len (.conv .str (.str [97, 98]))))) = .reject ∧
+    varDeclY FB none (.conv (.i .uint64) (.bin .shl (.un .neg (.int 1)) (.len (.conv .str (.str [97, 98]))))) = .unm "len-at-run-time" ∧
+    (evalY Expected.C03.facts { iota := 0 } none (.conv .str (.int 4294967296))).bind (fun n => .ok n.rv) =
+      .ok (.r .str (.str [0xEF, 0xBF, 0xBD])) ∧
+    Spec.evalGo 0 (.conv .str (.int 4294967296)) = .ok ⟨.str [0xEF, 0xBF, 0xBD], .t .str⟩ ∧
+    (evalY FB { iota := 0 } none (.conv .str (.int 4294967296))).bind (fun n => .ok n.rv) = .ok (.r .str (.str [0])) := by
+  decide +kernel
 
-/-- F03-19: `true << 1` is a Go panic in `check.shift` (the rval of `true` is a Go bool, not a go/constant value) -/
-theorem bool_shift_panic_witness :
-    evalY Expected.C03.facts { iota := 0 } none (.bin .shl (.bool true) (.int 1)) = .crash ∧
-    Spec.evalGo 0 (.bin .shl (.bool true) (.int 1)) = .reject := by decide
-
-/-- F03-20: `len` of a *typed* constant string is a constant only inside constant declarations; elsewhere it stays a
-    run-time call and the expression around it is not checked as a constant (outside the model) -/
-theorem len_typed_string_witness :
-    varDeclY Expected.C03.facts none (.conv (.i .uint64) (.bin .shl (.un .neg (.int 1)) (.len (.conv .str (.str [97, 98]))))) =
-      .unm "len-at-run-time" ∧
-    Spec.declGo 0 none (.conv (.i .uint64) (.bin .shl (.un .neg (.int 1)) (.len (.conv .str (.str [97, 98]))))) = .reject := by
-  decide
+/-- typed floating-point constants are folded exactly and rounded once (149d328): `float32(16777216) + float32(1) +
+    float32(1)` … is computed on exact values; the witness: `float32(0.1) * float32(3)` is the float32 nearest to the
+    exact product of the two float32 values on both sides -/
+example :
+    constDeclY Expected.C03.facts none (.bin .mul (.conv .f32 (.flt ⟨1, 10⟩)) (.conv .f32 (.int 3))) =
+      .ok [(.flt ⟨5033165, 16777216⟩, .f32)] ∧
+    Spec.declGo 0 none (.bin .mul (.conv .f32 (.flt ⟨1, 10⟩)) (.conv .f32 (.int 3))) = .ok (.flt ⟨5033165, 16777216⟩, .f32) := by
+  decide +kernel
 
 /-! ### conversion of a constant to float32: one rounding (seed C03-3) -/
 
@@ -548,11 +550,5 @@ theorem double_rounding_witness :
     convertConstY FB (.flt q) .f32 = .ok (.r .f32 (.flt ⟨1, 1⟩)) ∧
     Spec.convGo .f32 ⟨.flt q, .u .float⟩ = .ok ⟨.flt (Q.norm (2 ^ 23 + 1) (2 ^ 23)), .t .f32⟩ := by
   decide +kernel
-
-/-- F03-22: `string(c)` of an untyped integer constant outside the int32 range keeps the low 32 bits of the code
-    point: `string(4294967296)` is "\x00" (Go: "\uFFFD") -/
-theorem string_codepoint_wrap_witness :
-    (evalY Expected.C03.facts { iota := 0 } none (.conv .str (.int 4294967296))).bind (fun n => .ok n.rv) = .ok (.r .str (.str [0])) ∧
-    Spec.evalGo 0 (.conv .str (.int 4294967296)) = .ok ⟨.str [0xEF, 0xBF, 0xBD], .t .str⟩ := by decide
 
 end YaegiVerif.Props.C03
